@@ -28,7 +28,47 @@ class Prop(BaseProp):
             for k, cfg in enumerate(ddgen.CONFIGS):
                 cases = [{"id": "d%d_%d" % (k, i), "text": ddgen.gen_case(rng, cfg, big), "meta": {"cfg": k}} for i in range(8 if not big else 40)]
                 out.append({"name": "dd", "cases": cases, "env": ddgen.env_of(cfg)})
-        return out + sessgen.streams(rng, tier)
+        out += sessgen.streams(rng, tier)
+        skip = {"XET_VERIF_SKIP_SHARD_INTEGRITY_CHECK": "1"}
+        # many sessions against one shard cache, with the cap on indexed chunks lowered but never reached: every file must
+        # still be found by the session that re-uploads it
+        cases = []
+        for i in range(2 if not big else 6):
+            nid = 1000 * (i + 1)
+            ops, recs = [], []
+            for s in range(rng.choice([22, 24])):
+                nid += 1
+                r = "%d:%d" % (nid, rng.randrange(15000, 26000))
+                recs.append(r)
+                ops += ["S", "f a%d %s all" % (s, r), "E"] + (["M"] if rng.random() < 0.2 else [])
+            rng.shuffle(recs)
+            for j, r in enumerate(recs):
+                ops += ["S", "f b%d %s %s" % (j, r, rng.choice(["all", "4096"])), "E"]
+            ops.append("D")
+            cases.append({"id": "many%d" % i, "text": " | ".join(ops), "meta": {"cfg": "many"}})
+        env = dict(skip)
+        env.update({"HF_XET_TARGET_CHUNK_SIZE": "1024", "HF_XET_CHUNK_INDEX_TABLE_MAX_SIZE": "2000"})
+        out.append({"name": "sess", "cases": cases, "env": env, "model": False, "timeout": 1200})
+        # a session whose shard is flushed in mid-session (tiny shard target) while other files are still being cleaned
+        cases = []
+        for i in range(3 if not big else 10):
+            nid = 5000 * (i + 1)
+            recs = []
+            ops = ["S"]
+            for j in range(rng.choice([10, 14, 16])):
+                nid += 1
+                r = "%d:%d" % (nid, rng.randrange(40000, 90000))
+                recs.append(r)
+                ops.append("fp c%d %s %s" % (j, r, rng.choice(["all", "8192", "3000"])))
+            ops += ["E", "S"]
+            for j, r in enumerate(recs):
+                ops.append("f d%d %s all" % (j, r))
+            ops += ["E", "D"]
+            cases.append({"id": "flush%d" % i, "text": " | ".join(ops), "meta": {"cfg": "flush"}})
+        env = dict(skip)
+        env.update({"HF_XET_TARGET_CHUNK_SIZE": "1024", "HF_XET_MAX_XORB_BYTES": "16384", "HF_XET_MDB_SHARD_MIN_TARGET_SIZE": "1024"})
+        out.append({"name": "sess", "cases": cases, "env": env, "model": False, "timeout": 1200})
+        return out
 
     def nontrivial(self, stream, case, io):
         if stream == "dd":
